@@ -172,7 +172,7 @@ impl SExec {
                 if auth.is_fault() {
                     ctx.count(&format!("F7.{}.{}", func, auth.name()));
                 }
-                let (entries, ok) = match resolve_auth(*auth, &c) {
+                let (entries, ok) = match resolve_auth(&mut self.sim, *auth, &c) {
                     None => (vec![], false),
                     Some((w, other)) => (vec![AuthEntry { who: self.p[w].clone(), root: AuthNode::new(&gas, func, if other { alt } else { args.clone() }) }], w == col && !other),
                 };
@@ -240,7 +240,7 @@ impl SExec {
                 if auth.is_fault() {
                     ctx.count(&format!("F7.transfer_ownership.{}", auth.name()));
                 }
-                let (entries, ok) = match resolve_auth(*auth, &c) {
+                let (entries, ok) = match resolve_auth(&mut self.sim, *auth, &c) {
                     None => (vec![], false),
                     Some((w, other)) => (vec![AuthEntry { who: self.p[w].clone(), root: AuthNode::new(&gas, "transfer_ownership", if other { alt } else { args.clone() }) }], w == o && !other),
                 };
@@ -305,7 +305,7 @@ impl SExec {
             ctx.count(&format!("F7.{}.{}", func, auth.name()));
         }
         let c = AuthCtx { right: si, former: None, other_role: self.m.collector, counterparty: self.m.collector, owner: self.m.owner, stranger: STRANGER };
-        match resolve_auth(auth, &c) {
+        match resolve_auth(&mut self.sim, auth, &c) {
             None => (vec![], false),
             Some((w, other)) => {
                 let mut root = AuthNode::new(&self.gas, func, args.clone());
@@ -419,14 +419,14 @@ impl World for WorldS {
                 0 => SOp::PayGas {
                     spender: if rng.chance(1, 15) { 200 } else { rng.range(2, 3) as u8 }, token: rng.below(3) as u8, amount: inamt(rng), sender: rng.below(NP as u64) as u8,
                     chain: StrSpec::gen(rng), addr: StrSpec::gen(rng), payload: PayloadSpec::gen(rng, false), meta: rng.below(4) as u8,
-                    auth: if fault { *rng.pick(&[AuthVar::Counterparty, AuthVar::Owner, AuthVar::Stranger, AuthVar::Nobody, AuthVar::RightOtherArgs, AuthVar::RootOnly]) } else { AuthVar::Right }, abort,
+                    auth: if fault { *rng.pick(&[AuthVar::Counterparty, AuthVar::Owner, AuthVar::Stranger, AuthVar::Nobody, AuthVar::RightOtherArgs, AuthVar::RootOnly]) } else if f_auth && rng.chance(1, 6) { AuthVar::Everyone } else { AuthVar::Right }, abort,
                 },
                 1 => SOp::AddGas {
                     spender: rng.range(2, 3) as u8, token: rng.below(3) as u8, amount: inamt(rng), sender: rng.below(NP as u64) as u8, msg_id: StrSpec::gen(rng),
-                    auth: if fault { *rng.pick(&[AuthVar::Counterparty, AuthVar::Owner, AuthVar::Stranger, AuthVar::Nobody, AuthVar::RightOtherArgs, AuthVar::RootOnly]) } else { AuthVar::Right }, abort,
+                    auth: if fault { *rng.pick(&[AuthVar::Counterparty, AuthVar::Owner, AuthVar::Stranger, AuthVar::Nobody, AuthVar::RightOtherArgs, AuthVar::RootOnly]) } else if f_auth && rng.chance(1, 6) { AuthVar::Everyone } else { AuthVar::Right }, abort,
                 },
-                2 => SOp::Collect { receiver: *rng.pick(&[4u8, 5, 4, 5, 4, 5, 0, 1, 1, 2]), token: rng.below(3) as u8, amount: outamt(rng), auth: if fault { *rng.pick(&[AuthVar::Counterparty, AuthVar::Owner, AuthVar::Stranger, AuthVar::Nobody, AuthVar::RightOtherArgs]) } else { AuthVar::Right }, abort },
-                3 => SOp::Refund { receiver: *rng.pick(&[2u8, 3, 4, 5, 2, 3, 4, 5, 0, 1]), token: rng.below(3) as u8, amount: outamt(rng), msg_id: StrSpec::gen(rng), auth: if fault { *rng.pick(&[AuthVar::Counterparty, AuthVar::Owner, AuthVar::Stranger, AuthVar::Nobody, AuthVar::RightOtherArgs]) } else { AuthVar::Right }, abort },
+                2 => SOp::Collect { receiver: *rng.pick(&[4u8, 5, 4, 5, 4, 5, 0, 1, 1, 2]), token: rng.below(3) as u8, amount: outamt(rng), auth: if fault { *rng.pick(&[AuthVar::Counterparty, AuthVar::Owner, AuthVar::Stranger, AuthVar::Nobody, AuthVar::RightOtherArgs]) } else if f_auth && rng.chance(1, 6) { AuthVar::Everyone } else { AuthVar::Right }, abort },
+                3 => SOp::Refund { receiver: *rng.pick(&[2u8, 3, 4, 5, 2, 3, 4, 5, 0, 1]), token: rng.below(3) as u8, amount: outamt(rng), msg_id: StrSpec::gen(rng), auth: if fault { *rng.pick(&[AuthVar::Counterparty, AuthVar::Owner, AuthVar::Stranger, AuthVar::Nobody, AuthVar::RightOtherArgs]) } else if f_auth && rng.chance(1, 6) { AuthVar::Everyone } else { AuthVar::Right }, abort },
                 4 => SOp::TransferOwnership { to: rng.below(NP as u64) as u8, auth: if fault || rng.chance(1, 3) { *rng.pick(&[AuthVar::Former, AuthVar::OtherRole, AuthVar::Counterparty, AuthVar::Stranger, AuthVar::Nobody, AuthVar::RightOtherArgs]) } else { AuthVar::Right }, abort },
                 _ => SOp::Resubmit { k: rng.below(64) as u16 },
             };
@@ -469,6 +469,7 @@ impl World for WorldS {
                 break;
             }
             ctx.step = i;
+            ex.sim.permissive_next = false;
             let eff = match op {
                 SOp::Resubmit { k } => {
                     if ex.history.is_empty() {
